@@ -304,6 +304,88 @@ Theorem C08_lenient_add_accepts : forall ts s h hd o fs keep,
 Proof. exact lenient_add_accepts. Qed.
 Print Assumptions C08_lenient_add_accepts.
 
+(* ---- the constructor's sofa arguments are writes like any other: Cas(sofa_string = t, sofa_mime = m) leaves exactly t
+   and m (ANY given string, the empty one included; "text/plain" only when no MIME type was given) in the initial view's
+   sofa, to be read back through every handle of that view (C08_sofa_read_your_writes / C08_handles_equivalent) *)
+Theorem C08_ctor_sofa_as_given : forall ts k heap t,
+  heap0_okb heap = true -> k_text k = Some t ->
+  exists x, view_sofa (st (init ts k heap)) "_InitialView" = Some x /\
+    s_text x = Some t /\ s_mime x = Some (match k_mime k with Some m => m | None => "text/plain"%string end) /\
+    s_uri x = None /\ s_arr x = None.
+Proof. exact ctor_sofa_as_given. Qed.
+Print Assumptions C08_ctor_sofa_as_given.
+
+(* ---- the type system is shared and may grow during the history (Views.ev / run_ev: operations interleaved with
+   TypeSystem.create_type).  `reachable_ev ts0 l heap ts s`: s after ANY history of operations and declarations on a
+   fresh CAS, ts the type system at its end.  The invariants hold for all of them, so every theorem above stated with
+   `inv` (all are for an arbitrary ts) holds at every point of such a history with the type system of that moment;
+   handles of one view stay interchangeable; and an instance of a subtype of DocumentAnnotation declared AFTER handles
+   were obtained and used is found as the document annotation through every one of them, nothing is created. *)
+Theorem C08_reachable_ev_inv : forall ts0 l heap ts s,
+  heap0_okb heap = true -> reachable_ev ts0 l heap ts s -> inv l s.
+Proof. exact reachable_ev_inv. Qed.
+Print Assumptions C08_reachable_ev_inv.
+
+Theorem C08_reachable_ev_ainv : forall ts0 l heap ts s,
+  labels_okb heap = true -> reachable_ev ts0 l heap ts s -> ainv (st s).
+Proof. exact reachable_ev_ainv. Qed.
+Print Assumptions C08_reachable_ev_ainv.
+
+Theorem C08_reachable_reachable_ev : forall ts l heap s, reachable ts l heap s -> reachable_ev ts l heap ts s.
+Proof. exact reachable_reachable_ev. Qed.
+Print Assumptions C08_reachable_reachable_ev.
+
+Theorem C08_reachable_ev_step : forall ts0 l heap ts s e,
+  reachable_ev ts0 l heap ts s -> reachable_ev ts0 l heap (fst (fst (step_ev ts s e))) (snd (fst (step_ev ts s e))).
+Proof. exact reachable_ev_step. Qed.
+Print Assumptions C08_reachable_ev_step.
+
+Theorem C08_handles_equivalent_ev : forall l ts s evs1 evs2,
+  inv l s -> hequiv_ev ts s evs1 evs2 -> run_ev ts s evs1 = run_ev ts s evs2.
+Proof. exact handles_equivalent_ev. Qed.
+Print Assumptions C08_handles_equivalent_ev.
+
+Theorem C08_declare_grows : forall n p ts x,
+  (memb x (ts_types ts) = true -> memb x (ts_types (declare n p ts)) = true) /\
+  (memb x (ts_family ts) = true -> memb x (ts_family (declare n p ts)) = true).
+Proof. exact declare_grows. Qed.
+Print Assumptions C08_declare_grows.
+
+Theorem C08_declare_subtype : forall n p ts,
+  memb n (ts_types (declare n p ts)) = true /\
+  (memb p (ts_family ts) = true -> memb n (ts_family (declare n p ts)) = true).
+Proof. exact declare_subtype. Qed.
+Print Assumptions C08_declare_subtype.
+
+Theorem C08_declare_step : forall ts s n p,
+  memb n (ts_types ts) = false -> step_ev ts s (EDeclare n p) = (declare n p ts, s, ObUnit).
+Proof. exact declare_step. Qed.
+Print Assumptions C08_declare_step.
+
+Theorem C08_added_family_instance_is_docann : forall ts l s h hd o fs keep s1,
+  inv l s -> ainv (st s) -> nth_error (hs s) h = Some hd ->
+  hget o (st_heap (st s)) = Some fs -> memb (f_type fs) (ts_family ts) = true ->
+  family_count ts (st s) (h_view hd) = 0%nat ->
+  step ts s (OAdd h o keep) = (s1, ObUnit) ->
+  view_docann ts (st s1) (h_view hd) = Some o /\ family_count ts (st s1) (h_view hd) = 1%nat /\ hs s1 = hs s.
+Proof. exact added_family_instance_is_docann. Qed.
+Print Assumptions C08_added_family_instance_is_docann.
+
+Theorem C08_late_subtype_found_by_every_handle : forall ts0 l s n p h hd j hb o fs keep s1 op,
+  let ts := declare n p ts0 in
+  inv l s -> ainv (st s) -> memb p (ts_family ts0) = true ->
+  (l = true \/ memb DOCANN (ts_types ts0) = true) -> memb DOCANN (ts_family ts0) = true ->
+  nth_error (hs s) h = Some hd -> nth_error (hs s) j = Some hb -> h_view hb = h_view hd ->
+  hget o (st_heap (st s)) = Some fs -> f_type fs = n ->
+  family_count ts (st s) (h_view hd) = 0%nat ->
+  step ts s (OAdd h o keep) = (s1, ObUnit) ->
+  (op = OGetLang j \/ exists v, op = OSetLang j v) ->
+  let s2 := fst (step ts s1 op) in
+  view_docann ts (st s1) (h_view hd) = Some o /\
+  view_docann ts (st s2) (h_view hd) = Some o /\ family_count ts (st s2) (h_view hd) = 1%nat /\ hs s2 = hs s.
+Proof. exact late_subtype_found_by_every_handle. Qed.
+Print Assumptions C08_late_subtype_found_by_every_handle.
+
 (* non-vacuity: a strict CAS with text, a second view, three handles; an annotation moved from one view to the
    other, a foreign type refused, the document annotation created once and found again through another handle *)
 Example C08_premises_hold :
@@ -336,4 +418,21 @@ Example C08_explicit_ids :
     [("_InitialView"%string, 1, 1); ("other"%string, 6, 4); ("third"%string, 10, 5)] /\
   map (fun p => f_xid (snd p)) (st_heap (st s)) = [Some 7; Some 8; Some 9] /\
   st_genlog (st s) = [10; 9; 8; 7; 6; 1].
+Proof. cbv zeta. repeat split; vm_compute; reflexivity. Qed.
+
+(* non-vacuity for the growing type system: a strict CAS; handle 1 (view "other") reads the document language (a
+   DocumentAnnotation is created) and the annotation is removed again; an instance of t.Late is refused while the
+   type is unknown; t.Late is declared below DocumentAnnotation; the instance is added through a NEW handle of the
+   view; the OLD handle reads its language and nothing is created; declaring the name again is a ValueError *)
+Example C08_late_subtype :
+  let ts0 := mkTs ["t.Tok"; DOCANN] [DOCANN; "t.Doc"] in
+  let heap := [(0%N, mkFs "t.Late" true true None None (Some 0) (Some 3) (Some "de"))] in
+  let evs := [EOp (OCreateView 0 "other" None None); EOp (OGetLang 1); EOp (ORemove 1 1000%N); EOp (OAdd 1 0%N true);
+              EDeclare "t.Late" DOCANN; EOp (OGetView 0 "other"); EOp (OAdd 2 0%N true); EOp (OGetLang 1);
+              EOp (OSelectAll 2); EDeclare "t.Late" DOCANN] in
+  heap0_okb heap = true /\ labels_okb heap = true /\
+  snd (run_ev ts0 (init0 false heap) evs) =
+    [ObHandle 1; ObStr None; ObUnit; ObErr ERuntime; ObUnit; ObHandle 2; ObUnit; ObStr (Some "de"); ObSel [0]%N;
+     ObErr EValue] /\
+  fst (fst (run_ev ts0 (init0 false heap) evs)) = mkTs ["t.Tok"; DOCANN; "t.Late"] [DOCANN; "t.Doc"; "t.Late"].
 Proof. cbv zeta. repeat split; vm_compute; reflexivity. Qed.
